@@ -123,7 +123,7 @@ class Ctx:
         return hs
 
     # -------------------------------------------------------------------- go
-    def go_test(self, pkg, run, env=None, timeout=1500, name=None, race=False, extra_args=()):
+    def go_test(self, pkg, run, env=None, timeout=900, name=None, race=False, extra_args=()):
         """Runs a driver in /verif/harness against /repo's working tree. Returns (outdir, result dict or None)."""
         out = os.path.join(self.scratch, name or ("go-" + run.strip("^$")))
         os.makedirs(out, exist_ok=True)
@@ -236,6 +236,23 @@ class Ctx:
                 self.undecided.append("trace validation timeout (%s)" % cfg)
                 shutil.rmtree(wd, ignore_errors=True)
                 return
+            # independent vector records that the specification does not explain (printed, not fatal)
+            mism = sorted(set(int(x) for x in re.findall(r'"STEP_MISMATCH", (\d+)', out)))
+            if mism:
+                groups = {}
+                for at in mism:
+                    try:
+                        r = json.loads(lines[at - 1])
+                    except Exception:
+                        r = {}
+                    g = "%s:step:%s:%s%s" % (sigprefix, r.get("sut", "?"), r.get("op", "?"),
+                                             ":panic" if r.get("panic") else "")
+                    groups.setdefault(g, []).append(at)
+                for g, ats in sorted(groups.items()):
+                    ex = [lines[a - 1][:400] for a in ats[:3]]
+                    self.violation(g, "%d vector(s) differ from the specification's reference semantics, e.g. %s" % (len(ats), " || ".join(ex)),
+                                   {"examples": ex, "count": len(ats)})
+                self.extra["step_mismatches"] = self.extra.get("step_mismatches", 0) + len(mism)
             accepted = ("No error has been found" in out) and not rej
             self.log("TV  %-40s %6d records %s %5.1fs" % (cfg, len(lines), "accepted" if accepted else "REJECTED", time.time() - t))
             if accepted:
